@@ -15,6 +15,14 @@ CLAIMS = {
          "TLC exhausts the design model of union / intersection / A-not-B (per-entry processing in every physical iteration order, early stop, rebuild, intersection state machine, sort- vs hash-based difference) against the declarative set-expression contract for every sequence of <= 3 operands of an 11-value catalogue; every result of randomized expressions over operands in 6 physical forms on the real classes is validated by TLC against the same definitions",
          "trusted: TLC; operand values are taken as observed through the public API (C01 covers them); one recorded known finding (order-dependent sticky-empty intersection corner) is recognised by a named marker",
          TECH, "DESIGN.md 6 C02"),
+ "C13": ("model_checking",
+         "TLC exhausts the tuple design model (Theta table whose entries carry summaries created / updated in place / moved through resize and rebuild) against the free-monoid contract (summary = sequence of all values offered with the key); recorded executions of update_tuple_sketch (list summary with append/concatenation policies and a custom serde; array_of_doubles with integer columns), a lock-step theta sketch on the same keys, filter and the three set operations are validated by TLC event by event",
+         "trusted: TLC, reference hashes; the list summary makes every concrete policy a fold of the observed sequence; the set-operation key semantics are those of C02 (incl. its recorded intersection corner)",
+         TECH, "DESIGN.md 6 C13"),
+ "C06": ("exploration",
+         "dense sweep of the shared binomial-bound functions, seeded accuracy trials per family/lg_k/n judged by TLC in integer arithmetic (bias, spread against the published RSE, coverage at 1..3 std devs), and bound-coherence / exactness clauses evaluated by TLC at every observation of the Theta, set-operation, Tuple, HLL, HLL-union and CPC traces",
+         "statistical clauses are acceptance predicates over seeded samples (thresholds >= 6 standard errors + stated slack); the specification is an evaluator here, exhaustiveness comes from the sweep",
+         "TLA+ acceptance specification evaluated by TLC over recorded sweeps and trials of the real estimators; C06 clauses inside the family trace specifications", "DESIGN.md 6 C06"),
 }
 
 PENDING_REASON = "check not yet built in this round (work in progress; DESIGN.md section 10 build order)"
